@@ -35,7 +35,7 @@ func checkAllocFields(c *Ctx, rule, label string, p *Program, al *ssa.Alloc, at 
 			continue
 		}
 		for _, v := range vals {
-			t := p.TermOf(v)
+			t := p.XLocal(p.TermOf(v), al.Parent())
 			if !s.ok(t) {
 				why = append(why, fmt.Sprintf("%s ← %s (expected %s)", s.field, t, s.want))
 			}
@@ -56,7 +56,7 @@ func checkCallArgs(c *Ctx, rule, label string, p *Program, call ssa.Instruction,
 			why = append(why, "missing argument "+s.field)
 			continue
 		}
-		t := p.TermOf(cc.Args[i])
+		t := p.XLocal(p.TermOf(cc.Args[i]), call.Parent())
 		if s.ok != nil && !s.ok(t) {
 			why = append(why, fmt.Sprintf("argument %s ← %s (expected %s)", s.field, t, s.want))
 		}
